@@ -124,7 +124,7 @@ class Lab:
         flags = SAN_FLAGS if self.sanitize else PLAIN_FLAGS
         if o["lang"] == "c":
             src = self.dir / f"h_{tag}.c"
-            src.write_text(emit_c.CEmitter(self.ctypes).emit(self.header_paths(".h")))
+            src.write_text(emit_c.CEmitter(self.ctypes, self.top).emit(self.header_paths(".h")))
             exe = self.dir / f"h_{tag}"
             cmd = [CLANG, "-std=c11", *flags, "-Wall", "-Wno-unused-function", "-Wno-deprecated-declarations", "-I", str(gen), str(src), "-o", str(exe), "-lm"]
             if o["asserts"]:
@@ -133,7 +133,7 @@ class Lab:
                 cmd.insert(1, f"-D{macro}={val}")
         else:
             src = self.dir / f"h_{tag}.cpp"
-            src.write_text(emit_cpp.CppEmitter(self.ctypes).emit(self.header_paths(".hpp"), MINIVEC_OVERLOADS if o.get("container") == "minivec" else ""))
+            src.write_text(emit_cpp.CppEmitter(self.ctypes, self.top).emit(self.header_paths(".hpp"), MINIVEC_OVERLOADS if o.get("container") == "minivec" else ""))
             exe = self.dir / f"h_{tag}"
             std = {"c++17-pmr": "c++17"}.get(o["std"], o["std"])
             cmd = [CLANGXX, f"-std={std}", *flags, "-Wall", "-Wno-unused-function", "-Wno-deprecated-declarations", "-I", str(gen), str(src), "-o", str(exe)]
